@@ -29,6 +29,8 @@ def run(tier):
     free += [("session", dict(size=2, moo=1, al=0, keys=2, twocol=True), 30 if tier == "quick" else 200, 40),
              ("session", dict(size=3, moo=0, al=0, keys=2, mtrig=0.08), 30 if tier == "quick" else 200, 40),
              ("session", dict(size=2, moo=1, al=0, keys=3, twocol=True, mtrig=0.05), 20 if tier == "quick" else 150, 40)]
+    free += [("session", dict(size=2, moo=1, al=0, keys=2, nullkeys=True), 30 if tier == "quick" else 300, 30),
+             ("session", dict(size=3, moo=0, al=2, keys=2, nullkeys=True), 20 if tier == "quick" else 200, 30)]
     idle = [("session", dict(size=10, moo=2), 6 if tier == "quick" else 50)]      # IDLETIMEOUT: ties and stragglers keep a source alive
     post = lambda res, rng, vh, scen: win.proc_session_stage(res, rng, vh, scen, quick=(tier == "quick"))
     return win.run_family("C10", tier, plan, free, ASSUME, idle_plan=idle, post=post)
